@@ -38,9 +38,10 @@ Definition attr_coerce (e : engine) (a : attr_val) : attr_val :=
   end.
 
 (* the dtype a variable is written with by a netCDF engine: xarray writes the on-disk dtype it REMEMBERS from an
-   earlier load (variable.encoding["dtype"]) unless save_ds forgets it first.  The rule, as data: the remembered
-   kinds it forgets, for data of which kinds, unless the variable is packed (scale_factor / add_offset); it sits in
-   the netCDF branch only (joblib pickles the data as it is; zarr is left alone). *)
+   earlier load (variable.encoding["dtype"]) unless save_ds forgets it first.  The rule, as data: the kinds of
+   remembered dtype and of data it looks at, whether it forgets exactly those remembered dtypes that cannot hold the
+   data safely (numpy's can_cast(data, remembered, "safe")), unless the variable is packed (scale_factor /
+   add_offset); it sits in the netCDF branch only (joblib pickles the data as it is; zarr is left alone). *)
 Inductive dkind := KInt | KUInt | KFloat | KComplex | KBool | KStr.
 Definition dkind_eqb (a b : dkind) : bool :=
   match a, b with
@@ -48,11 +49,25 @@ Definition dkind_eqb (a b : dkind) : bool :=
   | _, _ => false
   end.
 Definition kmem (k : dkind) (l : list dkind) : bool := existsb (dkind_eqb k) l.
-Record dtype_rule := mk_dtype_rule { dr_disk : list dkind; dr_data : list dkind; dr_unless_packed : bool }.
-Definition model_dtype_rule : dtype_rule := mk_dtype_rule [KInt; KUInt] [KFloat] true.
-Definition forgets (r : dtype_rule) (remembered : dkind) (data : dkind) (packed : bool) : bool :=
-  kmem remembered (dr_disk r) && kmem data (dr_data r) && negb (dr_unless_packed r && packed).
-Definition written_kind (r : dtype_rule) (e : engine) (remembered : option dkind) (data : dkind) (packed : bool) : dkind :=
+(* a dtype: its kind and its width in bits (8 .. 64) *)
+Definition dtype := (dkind * Z)%type.
+(* numpy.can_cast(from, to, "safe") on the integer / unsigned / float dtypes of 8 .. 64 bits *)
+Definition safe_cast (from to : dtype) : bool :=
+  let '(k1, b1) := from in let '(k2, b2) := to in
+  match k1, k2 with
+  | KInt, KInt | KUInt, KUInt | KFloat, KFloat => (b1 <=? b2)%Z
+  | KUInt, KInt => (b1 <? b2)%Z
+  | (KInt | KUInt), KFloat => (((b1 <=? 16) && (32 <=? b2)) || (64 <=? b2))%Z
+  | _, _ => false
+  end.
+Record dtype_rule := mk_dtype_rule { dr_disk : list dkind; dr_data : list dkind; dr_unsafe_only : bool;
+                                     dr_unless_packed : bool }.
+Definition model_dtype_rule : dtype_rule := mk_dtype_rule [KInt; KUInt; KFloat] [KInt; KUInt; KFloat] true true.
+Definition forgets (r : dtype_rule) (remembered : dtype) (data : dtype) (packed : bool) : bool :=
+  kmem (fst remembered) (dr_disk r) && kmem (fst data) (dr_data r)
+  && (if dr_unsafe_only r then negb (safe_cast data remembered) else true)
+  && negb (dr_unless_packed r && packed).
+Definition written_dtype (r : dtype_rule) (e : engine) (remembered : option dtype) (data : dtype) (packed : bool) : dtype :=
   match e, remembered with
   | Ejoblib, _ => data
   | Ezarr, Some k => k
@@ -61,6 +76,7 @@ Definition written_kind (r : dtype_rule) (e : engine) (remembered : option dkind
   end.
 Definition enc_dkind (k : dkind) : val :=
   VS (match k with KInt => "i" | KUInt => "u" | KFloat => "f" | KComplex => "c" | KBool => "b" | KStr => "U" end)%string.
+Definition enc_dtype (d : dtype) : val := VL [enc_dkind (fst d); VZ (snd d)].
 
 (* how a site derives the path it touches from the user's data name *)
 Inductive path_expr := PRaw | PResolved | PRawTmp | PResolvedTmp.
